@@ -8,7 +8,6 @@ import (
 	"verif/cfg"
 	"verif/core"
 	"verif/oracle"
-	"verif/wl"
 )
 
 // C04 — safe mode never emits a script-capable or local-file URL.
@@ -426,7 +425,7 @@ func runC04(c *core.Ctx) {
 	// soup / mutants with scheme tokens
 	n2 := c.PerShard(c.N(100000, 6000000))
 	for i := 0; i < n2; i++ {
-		src := wl.Mix(r, corpus)
+		src := mixDoc(r, corpus)
 		if i%2 == 0 {
 			p := r.Intn(len(src) + 1)
 			sp := c04Spell(r)
